@@ -2292,9 +2292,8 @@ class PhonopyConfParser(ConfParser):
         # Q-points mode
         if "qpoints" in params or "read_qpoints" in params:
             self._settings.set_run_mode("qpoints")
-        if self._settings.run_mode == "qpoints":
-            if "qpoints_format" in params:
-                self._settings.set_qpoints_format(params["qpoints_format"])
+        if "qpoints_format" in params:
+            self._settings.set_qpoints_format(params["qpoints_format"])
 
         # Whether write out dynamical matrices or not
         if "write_dynamical_matrices" in params:
